@@ -5,13 +5,13 @@
 # work on /repo itself; a lane is the same machinery with /repo replaced by a
 # scratch worktree, so /repo is never touched and lanes do not collide).
 # Results: /verif/seeded/<id>/detection.txt, /verif/benign/<id>/result.txt and a
-# summary on stdout. Scratch lanes live under /tmp/vlanes and are removed.
+# summary on stdout. Scratch lanes live under /tmp/vlanes.<pid> and are removed.
 # SRC=<dir>: take the checks from another copy of /verif (e.g. a worktree of an
 # earlier commit) instead of the working copy; NOREC=1: do not rewrite
 # detection.txt / result.txt (a what-if run).
 set -u
 N=${1:-6}; FILTER=${2:-.}
-L=/tmp/vlanes; rm -rf $L; mkdir -p $L
+L=/tmp/vlanes.$$; rm -rf $L; mkdir -p $L  # private to this invocation: several may run at once
 cd /verif
 jobs=$L/jobs.txt; : > $jobs
 for d in seeded/*/; do id=$(basename $d); prop=${id%%[-_]*}
@@ -40,10 +40,10 @@ for k in $(seq 1 $N); do
     done < $L/jobs$k.txt ) > $L/out$k.log 2>&1 &
 done
 wait
-cat $L/out*.log > /verif/.work/regress_last.log 2>/dev/null
+cat $L/out*.log > /verif/.work/regress_$$.log 2>/dev/null; cp /verif/.work/regress_$$.log /verif/.work/regress_last.log
 for k in $(seq 1 $N); do git -C /repo worktree remove --force $L/repo$k; done
 git -C /repo worktree prune
 echo "== summary"
-echo "detected lines: $(grep -c DETECTED /verif/.work/regress_last.log)"
-echo "not detected / problems:"; grep -E "MISSED|NOT-BUILD|does not apply|not clean|alarms" /verif/.work/regress_last.log | grep -v " 0 alarms, 0 broken" | cut -c1-220
+echo "detected lines: $(grep -c DETECTED /verif/.work/regress_$$.log)"
+echo "not detected / problems:"; grep -E "MISSED|NOT-BUILD|does not apply|not clean|alarms" /verif/.work/regress_$$.log | grep -v " 0 alarms, 0 broken" | cut -c1-220
 rm -rf $L
